@@ -111,7 +111,21 @@ fn replacement(n: &Node, fam: &str, arg: u64, src: &[u8], others: &[&Node]) -> O
         },
         ("bytes-length", Kind::Bytes(s)) => cborx::bytes(&resized(&s.data(), BYTE_LENS[a % BYTE_LENS.len()])),
         ("bytes-length", Kind::Text(s)) => {
-            let d: Vec<u8> = resized(&s.data(), BYTE_LENS[a % BYTE_LENS.len()]).iter().map(|c| 0x61 + c % 26).collect();
+            // valid UTF-8 of about n bytes: plain letters, or an ASCII prefix of 0..3 bytes followed by a run of 2-, 3- or
+            // 4-byte characters, so that for long texts a character straddles every byte offset a decoder might cut at
+            const TEXT_LENS: [usize; 14] = [127, 128, 129, 130, 131, 255, 256, 257, 258, 1000, 1023, 1024, 1025, 4099];
+            let n = if a % 3 == 0 { TEXT_LENS[(a / 3) % TEXT_LENS.len()] } else { BYTE_LENS[a % BYTE_LENS.len()] };
+            let d: Vec<u8> = match (a / 7) % 4 {
+                0 => resized(&s.data(), n).iter().map(|c| 0x61 + c % 26).collect(),
+                k => {
+                    let ch: &str = ["\u{e9}", "\u{20ac}", "\u{1d11e}"][k - 1];
+                    let mut t = "abc"[..(a / 28) % 4].to_string();
+                    while t.len() + ch.len() <= n.max(ch.len()) {
+                        t.push_str(ch);
+                    }
+                    t.into_bytes()
+                }
+            };
             cborx::node(Kind::Text(Str::Def(W::min_for(d.len() as u64), d)))
         }
         ("empty-container", Kind::Array(v, len)) if !v.is_empty() => cborx::node(Kind::Array(vec![], len_min(len, 0))),
